@@ -182,6 +182,47 @@ where
     })
 }
 
+/// A user-written package type whose string conversion is case-sensitive and remembers what
+/// it was given: feature-dependent pre-processing of the type would show in the transcript.
+#[derive(Clone)]
+struct EchoShape {
+    seen: String,
+}
+
+impl FromStr for EchoShape {
+    type Err = purl::ParseError;
+
+    fn from_str(s: &str) -> Result<Self, Self::Err> {
+        if s.starts_with('x') || s.contains("Z") {
+            Err(purl::ParseError::InvalidPackageType)
+        } else {
+            Ok(EchoShape { seen: s.to_string() })
+        }
+    }
+}
+
+impl PurlShape for EchoShape {
+    type Error = purl::ParseError;
+
+    fn package_type(&self) -> std::borrow::Cow<str> {
+        std::borrow::Cow::Owned(self.seen.to_ascii_lowercase())
+    }
+
+    fn finish(&mut self, parts: &mut purl::PurlParts) -> Result<(), Self::Error> {
+        // like the documented example: names of this type are lower-case
+        let lowered: String = parts.name.chars().flat_map(char::to_lowercase).collect();
+        parts.name = lowered.as_str().into();
+        Ok(())
+    }
+}
+
+fn custom_line(s: &str) -> String {
+    guarded(|| match GenericPurl::<EchoShape>::from_str(s) {
+        Ok(p) => format!("seen={:?} {}", p.package_type().seen, render(&p)),
+        Err(e) => format!("Err({e:?}; {e})"),
+    })
+}
+
 fn mk_string(s: &str) -> Option<String> {
     Some(s.to_string())
 }
@@ -230,6 +271,7 @@ fn main() {
         let s = sp.assemble();
         inputs += 1;
         sink.line("generic-parse", 10_000_000_000 + i, parse_line::<String>(&s));
+        sink.line("custom-parse", 10_000_000_000 + i, custom_line(&s));
         #[cfg(feature = "pt")]
         tsink.line("typed-parse", 10_000_000_000 + i, parse_line::<purl::PackageType>(&s));
         let kind = *r.pick(spell::FAULT_KINDS);
@@ -247,6 +289,7 @@ fn main() {
         let s = gen::mutate(&mut r, &corpus);
         inputs += 1;
         sink.line("generic-parse", 30_000_000_000 + i, parse_line::<String>(&s));
+        sink.line("custom-parse", 30_000_000_000 + i, custom_line(&s));
         #[cfg(feature = "pt")]
         tsink.line("typed-parse", 30_000_000_000 + i, parse_line::<purl::PackageType>(&s));
     }
